@@ -231,8 +231,18 @@ func leBytes(v uint64) string {
 	}
 	return strings.Join(p, " ")
 }
-func coqW(v uint64) string { return "wb " + leBytes(v) }
-func coqN(v uint64) string { return "(" + coqW(v) + ")" }
+func coqW(v uint64) string {
+	if v == 0 {
+		return "w0"
+	}
+	return "wb " + leBytes(v)
+}
+func coqN(v uint64) string {
+	if v == 0 {
+		return "w0"
+	}
+	return "(" + coqW(v) + ")"
+}
 func coqWords(b []bm.Bit64) string {
 	s := make([]string, len(b))
 	for i, w := range b {
@@ -314,6 +324,91 @@ type spec struct {
 	Op    string   `json:"op,omitempty"`
 	I     int64    `json:"i,omitempty"`
 	Arg   uint64   `json:"arg,omitempty"`
+	Prog  []progOp `json:"prog,omitempty"`
+}
+
+// progOp: one step of a program over a pool of bitmaps (kind "prog", C08_Prog.v)
+type progOp struct {
+	Op string   `json:"op"` // PNew PLit BAnd BOr BOrThenReverse PRev PSetI32 PUnsetI32 PSetI16 PUnsetI16
+	A  int      `json:"a,omitempty"`
+	B  int      `json:"b,omitempty"`
+	I  int64    `json:"i,omitempty"`
+	W  []string `json:"w,omitempty"`
+}
+
+// runProg executes the program on real Bit1024 values.  Results are kept exactly as returned (no copy), so that a
+// result sharing storage with an operand or with another result shows when either is mutated later; after every
+// step every pool member is read again.
+func runProg(ops []progOp) (coq string, snaps [][][]string, msg string) {
+	var pool []bm.Bit1024
+	get := func(k int) bm.Bit1024 {
+		if k >= 0 && k < len(pool) {
+			return pool[k]
+		}
+		return bm.NewBit1024() // the model reads a missing member as the empty bitmap
+	}
+	var cops, csnaps []string
+	for _, o := range ops {
+		func() {
+			defer func() {
+				if x := recover(); x != nil {
+					msg = fmt.Sprint(x)
+				}
+			}()
+			switch o.Op {
+			case "PNew":
+				cops = append(cops, "PNew")
+				pool = append(pool, bm.NewBit1024())
+			case "PLit":
+				w := parseWords(o.W)
+				cops = append(cops, "PLit "+coqWords(w))
+				if len(w) == 16 {
+					pool = append(pool, bm.Bit1024(w))
+				}
+			case "BAnd", "BOr", "BOrThenReverse":
+				cops = append(cops, fmt.Sprintf("PBin %s %d%%nat %d%%nat", o.Op, o.A, o.B))
+				a, b := get(o.A), get(o.B)
+				var r bm.Bit1024
+				switch o.Op {
+				case "BAnd":
+					r = a.And(b)
+				case "BOr":
+					r = a.Or(b)
+				default:
+					r = a.OrThenReverse(b)
+				}
+				pool = append(pool, r)
+			case "PRev":
+				cops = append(cops, fmt.Sprintf("PRev %d%%nat", o.A))
+				pool = append(pool, get(o.A).Reverse())
+			case "PSetI32", "PUnsetI32", "PSetI16", "PUnsetI16":
+				cops = append(cops, fmt.Sprintf("PMut %s %d%%nat %s", o.Op, o.A, coqZ(o.I)))
+				if o.A >= 0 && o.A < len(pool) {
+					switch o.Op {
+					case "PSetI32":
+						pool[o.A].SetI32(int32(o.I))
+					case "PUnsetI32":
+						pool[o.A].UnsetI32(int32(o.I))
+					case "PSetI16":
+						pool[o.A].SetI16(int16(o.I))
+					default:
+						pool[o.A].UnsetI16(int16(o.I))
+					}
+				}
+			default:
+				panic("bad prog op " + o.Op)
+			}
+		}()
+		snap := make([]string, len(pool))
+		hs := make([][]string, len(pool))
+		for k, b := range pool {
+			snap[k] = coqWords(b)
+			hs[k] = hexWords(b)
+		}
+		csnaps = append(csnaps, "["+strings.Join(snap, ";")+"]")
+		snaps = append(snaps, hs)
+	}
+	return fmt.Sprintf("CProg [%s] [%s]", strings.Join(cops, ";"), strings.Join(csnaps, ";")), snaps, msg
 }
 
 func parseWords(h []string) []bm.Bit64 {
@@ -477,6 +572,15 @@ func run(e *vh.Env, sp spec) {
 		coq = fmt.Sprintf("CWordLen %s %s %s %s", coqN(uint64(w)), coqZ(int64(l)), coqZ(int64(nl)), vh.CoqBool(f))
 		class = "wordlen"
 		desc["len"], desc["nlen"], desc["full"] = l, nl, f
+	case "prog":
+		var snaps [][][]string
+		var msg string
+		coq, snaps, msg = runProg(sp.Prog)
+		class = "prog/" + sp.Op
+		if len(snaps) > 0 { // the replay keeps the whole program; the description shows the last observation
+			desc["final_pool"] = snaps[len(snaps)-1]
+		}
+		desc["panic"] = msg
 	default:
 		panic("unknown kind " + sp.Kind)
 	}
